@@ -41,8 +41,8 @@ def anchors():
 def cases(seed, tier):
     q = tier == "quick"
     n = 190 if q else 1800
-    fams = ["mob", "mob", "vor", "mob"]
-    return [{"fam": fams[i % 4], "seed": [seed, 1, i], "count": 2} for i in range(n)]
+    fams = ["mob", "mob", "vor", "mob", "vor4", "mob4"]
+    return [{"fam": fams[i % 6], "seed": [seed, 1, i], "count": 2} for i in range(n)]
 
 
 _MON = None
@@ -80,7 +80,7 @@ def _install():
                 return True
             keys.append(k)
             npts[k] = len(ids)
-        ref_keys = fb.internal_keys(at)
+        ref_keys = fb.internal_keys(at, {k_: n_ - 2 for k_, n_ in npts.items()} | {k_: r.ks[k_] for k_ in at.E if k_ not in npts})
         if sorted(map(sorted, keys)) != sorted(map(sorted, ref_keys)):
             mon.fail("inferred-set", "inferred interfaces = internal interfaces", n_got=len(keys), n_ref=len(ref_keys))
             return True
@@ -88,6 +88,12 @@ def _install():
         A0, junctions, _ = fb.matrix(at, keys=keys)
         if A0.shape[0] == 0:
             c["skip"] = "no-equation"
+            return True
+        ji_ = at.jifaces()
+        if any(k_ not in set(keys) for j_ in junctions for k_ in ji_[j_]):
+            # a used junction (four-fold, on the outline) is also pulled by an interface that is not an unknown: the
+            # inferred equations cannot be in balance for the true tensions - outside the property's domain
+            c["skip"] = "junction-with-external-interface"
             return True
         smin, smax = fb.sigma_min_aug(A0)
         T = np.array([at.T[k] for k in keys])
@@ -260,7 +266,7 @@ def _one(rng, fam, mon, sigs, hist, metrics):
         at = at.sub(_t.random_connected_subset(rng, at, int(rng.integers(12, 30))))
     # unit changes are as likely as all rotations together: tissues given in metres (1e-6) ... kilo-pixels
     at, posed = scen.pose(rng, at, mode=["id", "rot", "axis", "sim", "reflect", "scale", "scale", "scale"][int(rng.integers(8))])
-    if fam == "vor":
+    if fam in ("vor", "vor4"):
         k = int(rng.integers(0, 17)) if rng.random() < 0.6 else (0, 16)
     else:
         k = int(rng.integers(1, 17)) if rng.random() < 0.6 else (1, 16)
